@@ -61,6 +61,36 @@ fn c15_dispatch(p0: usize, p1: usize, two: bool, drop_first: bool, forever_secon
     std::mem::forget(listeners); std::mem::forget(l2); std::mem::forget(key);
 }
 
+/// C15 (subscribe/drop orders on ONE prefix): two subscriptions share PREFIXES[p]; one handle is dropped, a third
+/// subscription is taken on the same prefix (it reuses the dropped one's callback counter); with `late_drop` the
+/// remaining old handle is dropped too; then a key (0..=1 symbols) is written. `order` 0: the older handle goes first.
+fn c15_same_prefix(p: usize, order: u8, late_drop: bool) {
+    unsafe { CALLS = [0; 2]; LAST_KEY_LEN = [usize::MAX; 2]; }
+    let listeners = Listeners::default();
+    let h0 = listeners.subscribe_event(PREFIXES[p], cb0 as fn(KeyChangeEvent));
+    let h1 = listeners.subscribe_event(PREFIXES[p], cb1 as fn(KeyChangeEvent));
+    // (counter of the handle dropped first and re-subscribed, counter of the other old handle)
+    let (re, kept) = if order == 0 { (0usize, 1usize) } else { (1usize, 0usize) };
+    let (first, second) = if order == 0 { (h0, h1) } else { (h1, h0) };
+    drop(first);
+    let h2 = if re == 0 { listeners.subscribe_event(PREFIXES[p], cb0 as fn(KeyChangeEvent)) } else { listeners.subscribe_event(PREFIXES[p], cb1 as fn(KeyChangeEvent)) };
+    if late_drop { drop(second); } else { std::mem::forget(second); }
+    let n: usize = kani::any(); let s0: usize = kani::any();
+    kani::assume(n <= 1 && s0 < 3);
+    let mut key = String::with_capacity(4);
+    if n == 1 { key.push_str(SYMS[s0]); }
+    let id = lid();
+    let mut l2 = listeners.clone();
+    l2.trigger_event(KeyChangeEvent { key: key.as_str(), value: "v", node: &id });
+    let m = ref_match(p, n, &[s0, 0]).is_some() as u32;
+    kani::cover!(m == 1, "the shared prefix matches the key");
+    unsafe {
+        assert!(CALLS[re] == m, "C15: a new subscription on a shared prefix was not called exactly once (cancelled by another handle's drop, or the dropped one still fires)");
+        assert!(CALLS[kept] == if late_drop { 0 } else { m }, "C15: an older subscription on a shared prefix was not called exactly once while its handle is alive / was called after its handle was dropped");
+    }
+    std::mem::forget(h2); std::mem::forget(listeners); std::mem::forget(l2); std::mem::forget(key);
+}
+
 /// C15 (i): any key of 0..=2 arbitrary characters, no listener or one with the empty prefix: no panic
 fn c15_any_key_no_panic(with_listener: bool) {
     unsafe { CALLS = [0; 2]; }
